@@ -2690,6 +2690,15 @@ impl SctpInner {
     }
 
     async fn handle_data(&self, flags: u8, chunk: Bytes) -> Result<()> {
+        // DATA is only accepted once the association is established (RFC 4960: DATA
+        // belongs to ESTABLISHED). A chunk that overtakes the COOKIE ACK is dropped
+        // unacknowledged -- the peer retransmits it -- instead of being delivered
+        // before the channel announced Open and before a late INIT / INIT ACK may
+        // still move cumulative_tsn_ack.
+        if *self.state.lock() != SctpState::Connected {
+            debug!("SCTP: dropping DATA received before the association is established");
+            return Ok(());
+        }
         let mut buf = chunk.clone();
         if buf.remaining() < 12 {
             return Ok(());
@@ -7329,7 +7338,7 @@ mod tests {
 
         tokio::spawn(runner);
 
-        *sctp.inner.state.lock() = SctpState::Connecting;
+        *sctp.inner.state.lock() = SctpState::Connected;
         sctp.inner
             .remote_verification_tag
             .store(12345, Ordering::SeqCst);
@@ -7610,7 +7619,7 @@ mod tests {
 
         tokio::spawn(runner);
 
-        *sctp.inner.state.lock() = SctpState::Connecting;
+        *sctp.inner.state.lock() = SctpState::Connected;
         sctp.inner
             .remote_verification_tag
             .store(12345, Ordering::SeqCst);
@@ -7869,7 +7878,7 @@ mod tests {
 
         tokio::spawn(runner);
 
-        *sctp.inner.state.lock() = SctpState::Connecting;
+        *sctp.inner.state.lock() = SctpState::Connected;
         sctp.inner
             .remote_verification_tag
             .store(12345, Ordering::SeqCst);
@@ -8011,7 +8020,7 @@ mod tests {
 
         tokio::spawn(runner);
 
-        *sctp.inner.state.lock() = SctpState::Connecting;
+        *sctp.inner.state.lock() = SctpState::Connected;
         sctp.inner
             .remote_verification_tag
             .store(12345, Ordering::SeqCst);
